@@ -154,6 +154,7 @@ func ruleUnmarshalParamsErrors(c *chk.Ctx) {
 func ruleObjDecodeOnlyPresence(c *chk.Ctx) {
 	f := handlerFunc(c, "(Obj).UnmarshalJSON")
 	if f == nil {
+		c.Undecided("PAIR.obj", nil, "ruleObjDecodeOnlyPresence: anchor", 0, "the code this rule is anchored in was not found (f == nil)")
 		return
 	}
 	ir.Instrs(f, func(ins ssa.Instruction) {
@@ -192,55 +193,60 @@ func ruleObjDecodeOnlyPresence(c *chk.Ctx) {
 // ruleOmitTagConds: a positional name is turned into a json name only when it
 // is neither empty nor "-".
 func ruleOmitTagConds(c *chk.Ctx) {
-	f := c.M.HandlerPkg.Func("makeArgType")
-	if f == nil {
-		return
-	}
 	n := 0
-	c.P.ExtInstrs(f, func(ins ssa.Instruction) {
-		// the instruction that builds the tag text: a Sprintf with a json: format, or a string
-		// concatenation with a constant piece containing json:"
-		isTag := false
-		if call, ok := ins.(*ssa.Call); ok && ir.IsCallTo(&call.Call, "fmt.Sprintf") {
-			if s, isS := constString(call.Call.Args[0]); isS && strings.Contains(s, "json:") {
-				isTag = true
-			}
-		}
-		if bo, ok := ins.(*ssa.BinOp); ok && bo.Op == token.ADD {
-			for _, side := range []ssa.Value{bo.X, bo.Y} {
-				if s, isS := constString(side); isS && strings.Contains(s, "json:\"") {
+	for _, f := range pkgFuncs(c, c.M.HandlerPkg) {
+		f := f
+		ir.Instrs(f, func(ins ssa.Instruction) {
+			// the instruction that builds the tag text: a Sprintf with a json: format, or a string
+			// concatenation with a constant piece containing json:"
+			isTag := false
+			if call, ok := ins.(*ssa.Call); ok && ir.IsCallTo(&call.Call, "fmt.Sprintf") {
+				if s, isS := constString(call.Call.Args[0]); isS && strings.Contains(s, "json:") {
 					isTag = true
 				}
 			}
-		}
-		if !isTag {
-			return
-		}
-		n++
-		ne, nd := false, false
-		for _, cd := range c.P.CondsWithin(ins, f) {
-			x, y, op, ok := ir.Rel(cd)
-			if !ok {
-				continue
+			if bo, ok := ins.(*ssa.BinOp); ok && bo.Op == token.ADD {
+				for _, side := range []ssa.Value{bo.X, bo.Y} {
+					if s, isS := constString(side); isS && strings.Contains(s, "json:\"") {
+						isTag = true
+					}
+				}
 			}
-			k, isK := constString(y)
-			if !isK {
-				k, isK = constString(x)
+			if !isTag {
+				return
 			}
-			if !isK {
-				continue
+			n++
+			good := true
+			for _, ctx := range c.P.Contexts(ins, nil) {
+				ne, nd := false, false
+				for _, cd := range ctx {
+					x, y, op, ok := ir.Rel(cd)
+					if !ok {
+						continue
+					}
+					k, isK := constString(y)
+					if !isK {
+						k, isK = constString(x)
+					}
+					if !isK {
+						continue
+					}
+					if k == "" && op == token.NEQ {
+						ne = true
+					}
+					if k == "-" && op == token.NEQ {
+						nd = true
+					}
+				}
+				if !ne || !nd {
+					good = false
+				}
 			}
-			if k == "" && op == token.NEQ {
-				ne = true
-			}
-			if k == "-" && op == token.NEQ {
-				nd = true
-			}
-		}
-		c.Check(ne && nd, "PAIR.positional", f, "a name is usable only if it is neither empty nor \"-\"", ins.Pos(), "the json name tag is generated only on the name != \"\" ∧ name != \"-\" edge; otherwise the field is unreachable by name", "the json name tag is generated although the name may be empty or \"-\": the slot would be settable through the generated field name, bypassing the given names")
-	})
+			c.Check(good, "PAIR.positional", f, "a name is usable only if it is neither empty nor \"-\"", ins.Pos(), "the json name tag is generated only on the name != \"\" ∧ name != \"-\" edge; otherwise the field is unreachable by name", "the json name tag is generated although the name may be empty or \"-\": the slot would be settable through the generated field name, bypassing the given names")
+		})
+	}
 	if n == 0 {
-		c.Undecided("PAIR.positional", f, "tag generation", f.Pos(), "no generated json tag found")
+		c.Undecided("PAIR.positional", nil, "tag generation", 0, "no generated json tag found in the handler package")
 	}
 }
 
@@ -254,6 +260,7 @@ func ruleEnvelopeErrorOnlyFromJSON(c *chk.Ctx) {
 		}
 	}
 	if lp == nil {
+		c.Undecided("TABLE.parsereq", nil, "ruleEnvelopeErrorOnlyFromJSON: anchor", 0, "the code this rule is anchored in was not found (lp == nil)")
 		return
 	}
 	n := 0
@@ -427,6 +434,7 @@ func ruleEveryPeerErrorFiltered(c *chk.Ctx) {
 		})
 	}
 	if settle == nil {
+		c.Undecided("PROV.settle", nil, "ruleEveryPeerErrorFiltered: anchor", 0, "the code this rule is anchored in was not found (settle == nil)")
 		return
 	}
 	for _, f := range pkgFuncs(c, c.M.Pkg) {
@@ -469,6 +477,7 @@ func ruleEveryPeerErrorFiltered(c *chk.Ctx) {
 func ruleLoopSuccessReachesFinish(c *chk.Ctx) {
 	loop := c.M.ServerPkg.Func("Loop")
 	if loop == nil {
+		c.Undecided("PAIR.loop", nil, "ruleLoopSuccessReachesFinish: anchor", 0, "the code this rule is anchored in was not found (loop == nil)")
 		return
 	}
 	for _, g := range pkgFuncs(c, c.M.ServerPkg) {
@@ -694,6 +703,7 @@ func ruleEncoderOneOf(c *chk.Ctx) {
 func ruleStopResultInvoked(c *chk.Ctx) {
 	stop := stopFunc(c, "client")
 	if stop == nil {
+		c.Undecided("HOOK.stop", nil, "ruleStopResultInvoked: anchor", 0, "the code this rule is anchored in was not found (stop == nil)")
 		return
 	}
 	for _, s := range c.P.Callers(stop) {
